@@ -294,6 +294,10 @@ _add("C07", "Session 5 (FITS): the WHOLE file is modelled byte for byte (Model/F
 _add("C11", "Session 5 (FITS): fits_st_file_roundtrip: the whole ST FITS file (header cards with MOCDIM TIME.SPACE and both depths, flagged rows, padding) is made of 2880-byte blocks, declares NAXIS2 = twice the number of ranges, and the rows extracted from its data bytes are decoded to exactly the elements written; tie: the real file byte for byte (op st_fits_file).")
 _add("C05", "Session 5 (normal form): cells_maximal — for every valid MOC no cell of the cell view of depth >= 1 has its parent inside the MOC (the cells are the LARGEST aligned cells: four siblings never stand for their parent), proved from the local maximality of every step of the greedy iterator (nextCellK_maximal: trailing zeros / length bounds as computed) "
             "and a walk over greedy tiles (gtiles_maximal), with the gaps of a canonical range list on both sides; with cells_cover this characterises the normal form independently of the algorithm. The NUNIQ iterator is compared value by value with it (r_nuniq).")
+_add("C05", "Session 5 (iterator): HpxToUniqIter is transliterated (Model/UniqIter.lean: depth after depth, aligned part of every remaining range emitted, buffer subtracted with difference(new_from(buffer))) and proved: nuniq_iter_cover (the emitted ranges cover exactly the MOC, each a non-empty union of whole cells of its level) and "
+            "nuniq_iter_maximal (nothing emitted below the top level has its parent inside the MOC) — pass_sound / pass_complete, noBlk_after_pass, block_nest, removed_block, transfer; and emitted_iff_cell: an aligned cell is emitted by the iterator iff it is a cell of the cell view (maximal_unique: one family of maximal aligned cells per covered set). Tie: values of the real iterator = values of this model (r_nuniq_it) = NUNIQ numbers of the normal-form cells (r_nuniq).")
+_add("C19", "Session 5 (dates): the tool's ISO date conversion is modelled (Model/Calendar.lean: calendar2f / gregorian2jd as written, hms2usec, check_usec) and proved to count days: iso_day_count (every Gregorian date to the next one is +1 Julian day — ends of months, 28 / 29 February through the 400-year cycle, century years — anchored on 2000-01-01 = JD 2451545), "
+            "iso_next_day_usec (+86 400 000 000 us); tie: random civil dates 1583..2400 with fractions of a second through `moc from timestamp --time-type isorfc|isosimple` = the model (cli_from_iso).")
 _add("C20", "After the bug hunt the four descent theorems carry the STRICT inequality of the property (a threshold exactly on a sub-cell boundary cuts nothing and is met exactly; the code was off by a whole piece, repaired b3d1506; the model has the guards "
             "of the repaired code and the reverse lower descent recurses into itself, d3d6aa3), the harness judges the implementation with the exact sum of the pieces really cut, thresholds on every quarter / finest-piece boundary in both density orders are generated, "
             "and the sky-map reader is driven with skipped, UNSEEN and NaN pixels against the model (repaired 655082e). The whole-selection theorem selection_mass_bracket carries the strict inequality too (third conjunct; equality when no boundary cell is descended into).")
